@@ -450,37 +450,25 @@ prop(
     "the executed word (C02).",
     ["label line L >= 1 and origin + L - 1 <= 0xFFFF"],
 )
+EVAL_STUBS2 = [FMT, SYM, PRINT, EXIT, "AsmParser::new_simple -> empty parser; AsmParser::parse_simple -> its contract: an arbitrary statement of the harness's form, or Err "
+               "(decided by c01_pe_* and c15_parse_simple_*)",
+               "RunState::execute -> recorder (word, PC) that applies an arbitrary effect (new PC, one register) standing for the instruction's effect (C02)"]
 for nm, what, q in [
-    ("c15_eval_add", "eval ADD r,r,(r|imm): executed once as its encoding; out-of-range imm5 refused", True),
-    ("c15_eval_ldr", "eval LDR r,r,off6", False),
-    ("c15_eval_ld_label", "eval LD r,label at any PC: field = label address - PC; refused beyond 9 bits", True),
+    ("c15_eval_alu_forms", "eval of ADD r,r,r / AND r,r,imm5 / NOT / LDR / STR statements (all registers, every in-range immediate/offset): executed once as its encoding, machine = pre-state + the execution's effect", True),
+    ("c15_eval_ld_label", "eval LD r,label at any PC (label defined or not): field = label address - PC mod 2^16; refused beyond 9 bits / undefined", True),
     ("c15_eval_st_label", "eval ST r,label at any PC", False),
     ("c15_eval_lea_label", "eval LEA r,label at any PC", False),
-    ("c15_eval_refused_br", "eval BR* (literal or label operand): refused, nothing executes", True),
-    ("c15_eval_traps_and_rti", "eval RTI / HALT / TRAP v (every 16-bit v) / named traps: only vectors x20-x27 except HALT execute", True),
-    ("c15_eval_malformed_not", "eval NOT with 0..3 operand tokens of any kind: executes iff exactly two registers; surplus operands refused", True),
-    ("c15_eval_not_an_instruction", "eval of a non-instruction token / empty text: refused", False),
+    ("c15_eval_ldi_label", "eval LDI r,label at any PC", False),
+    ("c15_eval_refused", "eval BR* / RTI / HALT / TRAP with every vector outside x20..x27 / malformed text: refused, nothing executes, machine untouched", True),
+    ("c15_eval_traps_jumps", "eval RET / JMP r / JSRR r / TRAP x20..x27 except HALT: executed once as its encoding; the PC the execution sets survives eval", True),
 ]:
-    H("C15", f"debugger::eval::verif_h::{nm}", EVALF, tier=("quick" if q else "thorough"), uf=False, replayable=False, covers=2, stubs=EVAL_STUBS, timeout=3000, mem_gb=24,
-      functions=["eval_inner", "AsmParser::parse_simple", "AsmParser::parse_instr", "AsmParser::parse_trap", "AsmLine::backpatch", "AsmLine::emit", "AsmLine::bit_offs"],
-      what=what, bounds="one eval; label name 'ab'")
-
-TRAP_STUBS = [FMT, "runtime::read_char -> next element of the harness's input queue (ASCII or U+FFFD), exit(1) at end of input",
-              "Output::print_fmt -> capture sink (program output as code points)", EXIT]
-for nm, what, props, nc in [
-    ("c03_trap_getc_in_out", "GETC / OUT / IN: register frame, exactly one input character consumed, exactly the documented character printed", ["C03", "C02"], 3),
-    ("c03_trap_input_eof", "GETC / IN at end of input: exit(1)", ["C03"], 1),
-    ("c03_trap_halt_putn", "HALT: PC = 0xFFFF only; PUTN: R0 as signed decimal (length, sign, first and last digit)", ["C03", "C02"], 2),
-    ("c03_trap_puts", "PUTS: characters up to the first zero word", ["C03"], 2),
-    ("c03_trap_putsp", "PUTSP: bytes up to the first zero byte", ["C03"], 1),
-    ("c02_trap_unknown_vector", "every trap vector outside x20..x27: exit(0xEE), nothing executed", ["C02", "C03"], 1),
-    ("c03_trap_reg", "REG: prints, machine untouched", ["C03"], 1),
-]:
-    for pp in props:
-        H(pp, f"runtime::verif_h::{nm}", RT, uf=True, covers=nc, stubs=TRAP_STUBS, timeout=2400, mem_gb=20,
-          allow_unsat=(["in-bounds instruction"] if False else []),
-          functions=["RunState::trap", "Output::print", "Output::print_decimal", "Output::print_registers"], what=what,
-          bounds="strings <= 3 words (PUTS) / 2 words (PUTSP), not running through 0xFFFF; input queue <= 2 characters")
+    H("C15", f"debugger::eval::verif_h::{nm}", EVALF, tier=("quick" if q else "thorough"), replayable=False, covers=2, stubs=EVAL_STUBS2, timeout=3000, mem_gb=24,
+      functions=["eval_inner", "AsmLine::backpatch", "AsmLine::emit", "AsmLine::bit_offs"], what=what, bounds="one eval; label name 'ab'")
+for nm, what in [("c15_parse_simple_ret", "parse_simple on `ret` with / without a surplus token of any kind"),
+                 ("c15_parse_simple_not", "parse_simple on `not` with 0..3 operand tokens: Ok iff exactly two registers"),
+                 ("c15_parse_simple_not_an_instruction", "parse_simple on a non-instruction token / nothing: Err")]:
+    H("C15", f"parser::verif_h::{nm}", PAR, tier="thorough", covers=2, stubs=PE_STUBS, timeout=5400, mem_gb=30,
+      functions=["AsmParser::parse_simple", "AsmParser::parse_instr"], what=what, bounds="<= 4 tokens")
 
 # ------------------------------------------------------------------ C05 / C18 / more C01, C11, C17
 ASMF = "src/debugger/asm.rs"
@@ -582,9 +570,6 @@ for pp in ("C09", "C16"):
       allow_unsat=["in-bounds instruction"],
       functions=["RunEnvironment::run (debugger branch)"], what="next_action answering ExitProgram: run() returns with the machine untouched", bounds="one iteration")
 
-H("C15", "debugger::eval::verif_h::c15_eval_jumps", EVALF, replayable=False, covers=2, stubs=EVAL_STUBS, timeout=3000, mem_gb=30,
-  functions=["eval_inner", "AsmParser::parse_simple", "AsmLine::emit"], what="eval RET / JMP r / JSRR r: executed once as their encoding; the PC the execution sets survives eval",
-  bounds="one eval")
 H("C17", "debugger::asm::verif_h::c17_show_single_line_multibyte", ASMF, covers=1, timeout=2400, stubs=[FMT, "Output::print_fmt -> capture sink (both channels)"],
   functions=["AsmSource::show_single_line", "AsmSource::get_source_statement"], what="assembly <addr> (minimal) prints exactly the statement's bytes when multi-byte characters precede it",
   bounds="fixed 12-byte source with a 2-byte and a 4-byte character; 2 statements; symbolic origin")
